@@ -485,6 +485,20 @@ func cmdHdrImport(o *Out, line string, f []string) {
 		if err := bson.Unmarshal(bs, &snap); err != nil {
 			o.violation(line, "BSON output not parseable by the driver codec", err.Error())
 		}
+		// decoding replaces whatever the receiver held: a used histogram of the same configuration, one of another
+		// configuration, and the same receiver twice
+		used := hdrhist.New(mn, mx, s)
+		_ = used.RecordValue(mn)
+		_ = used.RecordValues(mx/2, 3)
+		other := hdrhist.New(1, 1000, 2)
+		_ = other.RecordValue(7)
+		for _, r := range []*hdrhist.Histogram{used, other, h3, h3} {
+			if err := r.UnmarshalBSON(bs); err != nil || !r.Equals(h) || r.TotalCount() != h.TotalCount() || r.Max() != h.Max() ||
+				r.ValueAtQuantile(50) != h.ValueAtQuantile(50) {
+				o.violation(line, "BSON decoding into a histogram that was in use does not reproduce the encoded histogram", fmt.Sprint(err))
+				break
+			}
+		}
 	}
 	if js, err := json.Marshal(h); err != nil {
 		o.violation(line, "MarshalJSON failed", err.Error())
@@ -492,6 +506,16 @@ func cmdHdrImport(o *Out, line string, f []string) {
 		h4 := &hdrhist.Histogram{}
 		if err := json.Unmarshal(js, h4); err != nil || !h4.Equals(h) {
 			o.violation(line, "JSON marshalling round trip differs", fmt.Sprint(err))
+		}
+		used := hdrhist.New(mn, mx, s)
+		_ = used.RecordValue(mn)
+		_ = used.RecordValues(mx/2, 3)
+		for _, r := range []*hdrhist.Histogram{used, h4, h4} {
+			if err := json.Unmarshal(js, r); err != nil || !r.Equals(h) || r.TotalCount() != h.TotalCount() || r.Max() != h.Max() ||
+				r.ValueAtQuantile(50) != h.ValueAtQuantile(50) {
+				o.violation(line, "JSON decoding into a histogram that was in use does not reproduce the encoded histogram", fmt.Sprint(err))
+				break
+			}
 		}
 	}
 }
